@@ -21,10 +21,12 @@ import (
 	"github.com/go-chi/chi/v5"
 	"github.com/go-chi/chi/v5/middleware"
 	"github.com/phayes/freeport"
+	"go.etcd.io/etcd/api/v3/mvccpb"
 	yaml "gopkg.in/yaml.v2"
 
 	"github.com/megaease/easegress/pkg/cluster"
 	"github.com/megaease/easegress/pkg/cluster/clustertest"
+	"github.com/megaease/easegress/pkg/cluster/customdata"
 	"github.com/megaease/easegress/pkg/env"
 	"github.com/megaease/easegress/pkg/logger"
 	"github.com/megaease/easegress/pkg/option"
@@ -203,6 +205,27 @@ func (c *c18Mem) facade() (*clustertest.MockedCluster, *c18Fault) {
 		}
 		return nil, nil
 	}
+	mc.MockedGetRaw = func(key string) (*mvccpb.KeyValue, error) { // custom-data store
+		c.pause()
+		c.mu.Lock()
+		defer c.mu.Unlock()
+		if v, ok := c.kv[key]; ok {
+			return &mvccpb.KeyValue{Key: []byte(key), Value: []byte(v)}, nil
+		}
+		return nil, nil
+	}
+	mc.MockedGetRawPrefix = func(prefix string) (map[string]*mvccpb.KeyValue, error) {
+		c.pause()
+		c.mu.Lock()
+		defer c.mu.Unlock()
+		out := map[string]*mvccpb.KeyValue{}
+		for k, v := range c.kv {
+			if strings.HasPrefix(k, prefix) {
+				out[k] = &mvccpb.KeyValue{Key: []byte(k), Value: []byte(v)}
+			}
+		}
+		return out, nil
+	}
 	mc.MockedGetPrefix = func(prefix string) (map[string]string, error) {
 		c.pause()
 		c.mu.Lock()
@@ -262,13 +285,14 @@ type c18Srv struct {
 // package-level api registry cannot hold two servers)
 func c18NewSrv(cls cluster.Cluster) *c18Srv {
 	s := &Server{cluster: cls, super: nil}
+	s.cds = customdata.NewStore(cls, cls.Layout().CustomDataKindPrefix(), cls.Layout().CustomDataPrefix())
 	m := &dynamicMux{server: s}
 	r := chi.NewMux()
 	r.Use(middleware.StripSlashes)
 	r.Use(m.newAPILogger)
 	r.Use(m.newConfigVersionAttacher)
 	r.Use(m.newRecoverer)
-	for _, e := range s.objectAPIEntries() {
+	for _, e := range append(s.objectAPIEntries(), s.customDataAPIEntries()...) {
 		path := APIPrefix + e.Path
 		switch e.Method {
 		case "GET":
@@ -348,7 +372,39 @@ func c18Yaml(name, kind, body string) string {
 	return fmt.Sprintf("name: %s\nkind: %s\ndata: %q\n", name, kind, body)
 }
 
+// requests of the custom-data API (kinds: Name = kind; items: Name = kind, Body = item id): they run
+// without the cluster lock and must touch neither an object nor /config/version
+func c18IsCustom(op string) bool {
+	switch op {
+	case "kcreate", "kupdate", "kdelete", "dcreate", "dupdate", "ddelete":
+		return true
+	}
+	return false
+}
+
+func c18CustomRequest(op c18Op) *http.Request {
+	kinds := APIPrefix + CustomDataKindPrefix
+	items := APIPrefix + "/customdata/" + op.Name
+	switch op.Op {
+	case "kcreate":
+		return httptest.NewRequest("POST", kinds, strings.NewReader("name: "+op.Name+"\n"))
+	case "kupdate":
+		return httptest.NewRequest("PUT", kinds, strings.NewReader("name: "+op.Name+"\nidField: name\n"))
+	case "kdelete":
+		return httptest.NewRequest("DELETE", kinds+"/"+op.Name, nil)
+	case "dcreate":
+		return httptest.NewRequest("POST", items, strings.NewReader("name: "+op.Body+"\nv: c\n"))
+	case "dupdate":
+		return httptest.NewRequest("PUT", items, strings.NewReader("name: "+op.Body+"\nv: u\n"))
+	default:
+		return httptest.NewRequest("DELETE", items+"/"+op.Body, nil)
+	}
+}
+
 func c18Request(op c18Op) *http.Request {
+	if c18IsCustom(op.Op) {
+		return c18CustomRequest(op)
+	}
 	body := c18Yaml(op.Name, op.Kind, op.Body)
 	urlName := op.Name
 	switch op.Bad {
@@ -411,6 +467,12 @@ func c18Exec(in c18ApiIn, real *c18RealEnv) (obs c18ApiObs) {
 	// initial store
 	layout := base.Layout()
 	if err := base.DeletePrefix(layout.ConfigObjectPrefix()); err != nil {
+		panic(err)
+	}
+	if err := base.DeletePrefix(layout.CustomDataKindPrefix()); err != nil {
+		panic(err)
+	}
+	if err := base.DeletePrefix(layout.CustomDataPrefix()); err != nil {
 		panic(err)
 	}
 	if in.V0 == 0 {
@@ -571,6 +633,20 @@ func c18GenApi(r *vfRand, mode string, adv bool) c18ApiIn {
 		}
 		in.Gs = append(in.Gs, ops)
 	}
+	// the other admin API that writes to the cluster: custom-data kinds and items, mixed in between (and
+	// concurrently with) the object mutations
+	if r.Chance(1, 3) || (adv || mode == "conc-real") && r.Chance(1, 3) {
+		for g := range in.Gs {
+			for k := r.Range(1, 3); k > 0; k-- {
+				op := c18Op{Op: r.PickStr("kcreate", "kcreate", "kupdate", "kdelete", "dcreate", "dupdate", "ddelete"),
+					Name: r.PickStr("kind-a", "kind-b"), Body: r.PickStr("item1", "item2"), M: r.Intn(in.Members)}
+				at := r.Intn(len(in.Gs[g]) + 1)
+				ops := append([]c18Op{}, in.Gs[g][:at]...)
+				ops = append(ops, op)
+				in.Gs[g] = append(ops, in.Gs[g][at:]...)
+			}
+		}
+	}
 	// identical re-PUTs: an update that carries exactly the kind and body of the latest earlier write of
 	// that name by the same client (or of the initial object) is still a successful mutation: next version
 	for g := range in.Gs {
@@ -597,8 +673,8 @@ func c18GenApi(r *vfRand, mode string, adv bool) c18ApiIn {
 			g := r.Intn(len(in.Gs))
 			i := r.Intn(len(in.Gs[g]))
 			op := &in.Gs[g][i]
-			if try < 4 && (op.Op == "get" || op.Bad != "") {
-				continue // prefer a mutation: only there a fault can separate object write and version write
+			if c18IsCustom(op.Op) || try < 4 && (op.Op == "get" || op.Bad != "") {
+				continue // never a custom-data request; prefer a mutation: only there a fault can separate object write and version write
 			}
 			op.Fault = r.PickInt(1, 2, 3, 4, 4, 4, 5, 5)
 			if op.Op == "get" {
